@@ -117,7 +117,7 @@ def job_parse(job):
                 plain = [dict(l, toks=l["toks"][:4]) for l in plain]
             # the ranks do not change when every timestamp of the file is moved by the same amount: large timestamps
             # (beyond the small-integer range), several rows sharing one
-            off = rng.choice([0, 1000, 10 ** 6])
+            off = rng.choice([0, 1000, 10 ** 6, -1, -2, -4])      # negative: vanishing timestamps of exactly 0, negative starts
             tpos = (2, 3) if parser == "snapshots" else (3,)
             moved = [dict(l, toks=[[t[0], t[1] + off] if (i in tpos and t[0] == "i") else t for i, t in enumerate(l["toks"])])
                      for l in plain]
